@@ -13,7 +13,7 @@ decode = default_decode(SIG)
 TASK_REQS = 2500
 RULE = ('requests (value, radix): radices 2..=256 and out-of-range ones; structured values plus, for each radix, values with an interior '
         'all-zero chunk (x = hi*(r^p)^2 + lo, p = digits per division chunk of that digit size), interior zero digits, one-digit '
-        'values, r^k and r^k-1. The numeral is computed independently by the monitor; the std formatter is a second oracle for widths '
+        'values, r^k and r^k-1, and 2^k-1 / 2^k for every bit length k (every 8th k for types wider than 512 bits in the quick tier). The numeral is computed independently by the monitor; the std formatter is a second oracle for widths '
         '<= 128 bits (radix 2/8/10/16). Non-trivial: interior run of >= 2 zero digits, multi-chunk numerals, power-of-two radices '
         'that do not divide the digit width, negative values; distinct = distinct request lines')
 
@@ -46,6 +46,15 @@ def requests(cfg, rng, n, tier, part, nparts, st):
             yield 'out', (cfg.min if cfg.signed else cfg.max // 3, r)
         for r in (0, 1, 257, 37, 2 ** 32 - 1):
             yield 'out', (gen.value(cfg, rng), r)
+    # every bit length: 2^k - 1 and 2^k (+ a random value of that length); all k in the thorough tier, a seed-dependent 1/8 (wide types) in the quick tier
+    stride = 1 if (tier == 'thorough' or cfg.bits <= 512) else 8
+    ks = list(range(rng.randrange(stride), cfg.bits + 1, stride))
+    lo, hi = (len(ks) * part // nparts, len(ks) * (part + 1) // nparts)
+    for k in ks[lo:hi]:
+        r = rng.choice((10, 10, 10, 16, 7, 36, 3, 255))
+        for v in ((1 << k) - 1, 1 << k, (1 << k) | rng.getrandbits(k) if k else 1):
+            if v <= cfg.mask:
+                yield 'out', (cfg.val(v), r)
     U = cfg.U()
     for _ in range(n):
         r = rng.choice((2, 3, 4, 5, 7, 8, 10, 10, 10, 16, 16, 32, 36, 36, 64, 128, 256, 100, 255, 37, 200, rng.randrange(2, 37), rng.randrange(2, 257)))
